@@ -85,7 +85,7 @@ class Engine:
         self.enum_src_dirs = enum_src_dirs
         self.call_stack = []; self.trace = bool(__import__('os').environ.get('MIRSYM_TRACE')); self.env_stack = [{}]; self._gen_cache = index.__dict__.setdefault('_gen_cache', {})
         self.models = []                           # [(compiled regex, fn)]
-        self.touched = {}; self.cov = set(); self.const_overrides = {}; self.max_orders = 720; self.notes = set()
+        self.touched = {}; self.cov = set(); self.const_overrides = {}; self.max_orders = 720; self.notes = set(); self._statics = {}
         from . import models, models2, models3, models4
         models.register(self); models2.register2(self); models3.register3(self); models4.register4(self); models4.register_path(self)
         from . import models5; models5.register5(self)
@@ -143,7 +143,7 @@ class Engine:
         results = []; prefix = list(prefix or []); self.replay = list(prefix); self.truncated = None; self.cuts = []; self.cut_pcs = []; self.prefix_pc = None; self._prefix_len = len(prefix)
         self.split_depth = split_depth
         while True:
-            self.decisions = []; self.pc = []; self.solver = z3.Solver(); self.call_stack = []; self.env_stack = [{}]
+            self.decisions = []; self.pc = []; self.solver = z3.Solver(); self.call_stack = []; self.env_stack = [{}]; self._statics = {}
             try:
                 r = run(self); results.append(('ok', r, list(self.pc)))
             except Panic as p: results.append(('panic', str(p), list(self.pc)))
@@ -365,7 +365,21 @@ class Engine:
             for k_, v_ in self.const_overrides.items():
                 if s.endswith('::' + k_) or s == k_: return v_
         if s.startswith(('tracing::', 'LevelFilter::')): return Agg([], 'tracing')
-        if s.startswith('{alloc'): return Ref([Agg([], 'static:' + s)], 0)             # reference to a static we never look into            # tracing is modelled as disabled
+        if s.startswith('{alloc'):
+            mm = re.match(r'\{alloc(\d+): &', s)
+            crate = self.call_stack[-1].crate if self.call_stack else None
+            name = self.ix.alloc_static.get((crate, int(mm.group(1)))) if mm else None
+            if name and 'LazyLock<' in s:
+                if name not in self._statics:
+                    segs = name.split('::'); simple = segs[-1]
+                    cands = [f for f in self.ix.by_simple.get(simple, []) if f.header.startswith('static ') and f.crate == crate and f.name.endswith('::' + '::'.join(segs[-2:]))]
+                    if len(cands) > 1 and len(segs) >= 3:
+                        c2 = [f for f in cands if (self.ix.impl_info(f.name) or (None, None))[1] == segs[-3]]
+                        cands = c2 or cands
+                    if len(cands) != 1: raise EngineError(f'static {name} not found uniquely')
+                    self._statics[name] = [self.call_mir(cands[0], [])]
+                return Ref(self._statics[name], 0)
+            return Ref([Agg([], 'static:' + s)], 0)             # reference to a static we never look into            # tracing is modelled as disabled
         segs = split_path(strip_lifetimes(s))
         if len(segs) >= 2 and re.fullmatch(r'\w+', segs[-1]) and self._is_enum(last_seg(segs[-2])) and segs[-1] in self.enum_variants(last_seg(segs[-2])):
             return Enum(segs[-1], ty=last_seg(segs[-2]))
@@ -411,6 +425,8 @@ class Engine:
             if mm and not s.startswith('const "'):
                 v = self.operand(fr, mm.group(1)); return self.cast(v, mm.group(2), mm.group(3), self.ty_of(fn, mm.group(1)))
             return self.operand(fr, s)
+        mfp = re.fullmatch(r'(.*) as (?:for<[^>]*> )?(?:unsafe )?(?:extern "[^"]*" )?fn\(.*\)(?: -> .*)? \(PointerCoercion\((?:ReifyFnPointer|ClosureFnPointer)[^)]*\)(?:, \w+)?\)\)', s)
+        if mfp and not s.startswith(('copy ', 'move ')): return FnItem(mfp.group(1))
         if s.startswith('&mut '): return self.mkref(*self.place(fr, s[5:]))
         if s.startswith('&raw '):
             rest = s.split(' ', 2)[2]
@@ -806,7 +822,7 @@ class Engine:
             targ = re.search(r'<(.*)>$', m.group(2).strip())
             is_std = xs.startswith(('std::', 'core::', 'alloc::')) or xs in ('str', 'String', 'usize', 'u8', 'u32', 'u64', 'i32', 'i64', 'bool', 'char') or xs.startswith('[')
             if is_std and not targ: return None                                  # std type, trait without type argument: std's own impl (a model)
-            f = self._find_impl(meth, trait, xs, len(args))
+            f = self._find_impl(meth, trait, xs, len(args), split_top(targ.group(1))[0] if targ else None)
             if f is None and not is_std:
                 # provided (default) method of a crate trait: printed as `module::Trait::method`
                 d = [g for g in self.ix.by_simple.get(meth, []) if (g.name == trait + '::' + meth or g.name.endswith('::' + trait + '::' + meth)) and '<impl at' not in g.name and len(g.args) == len(args)]
@@ -836,9 +852,9 @@ class Engine:
             raise EngineError(f'ambiguous free fn {c}: {[f.name for f in cands]}')
         return None
 
-    def _find_impl(self, meth, trait, ty, nargs):
+    def _find_impl(self, meth, trait, ty, nargs, arg0=None):
         """ty is a printed type key (possibly module-qualified when the bare name is ambiguous crate-wide)"""
-        key = (meth, trait, ty, nargs)
+        key = (meth, trait, ty, nargs, arg0)
         if key in self._res_cache: return self._res_cache[key]
         bare = last_seg(ty); mod = ty[:-len(bare)].rstrip(':') if '::' in ty else None
         out = []
@@ -864,7 +880,11 @@ class Engine:
         if len(out) == 1: r = out[0]
         elif len(out) > 1:
             if all(x.header == out[0].header for x in out): r = out[0]
-            else: raise EngineError(f'ambiguous impl {ty}::{meth}: {[f.name for f in out]}')
+            else:
+                o2 = [f for f in out if arg0 is not None and f.args and strip_lifetimes(f.args[0]).replace(' ', '') == strip_lifetimes(arg0).replace(' ', '')] if arg0 else []
+                if not o2 and arg0: o2 = [f for f in out if f.args and type_key(f.args[0]) == type_key(arg0) and strip_lifetimes(f.args[0]).startswith('&') == strip_lifetimes(arg0).startswith('&')]
+                if len(o2) == 1: r = o2[0]
+                else: raise EngineError(f'ambiguous impl {ty}::{meth}: {[f.name for f in out]}')
         self._res_cache[key] = r
         return r
 
